@@ -169,7 +169,7 @@ impl Frame {
             _ => return Err(FrameError::CobsError),
         }
 
-        if frame.len() < 5 || frame.len() != frame[4] as usize + 5 {
+        if frame.len() < 5 || frame[4] > 8 || frame.len() != frame[4] as usize + 5 {
             return Err(FrameError::WrongSize);
         }
 
